@@ -290,7 +290,13 @@ Definition c12_py_uses (tvs : list str) (ds : list py_decl) (typevars fns : list
 Definition c12_py_defs (typevars fns imported : list str) : list str := typevars ++ fns ++ imported.
 
 (* generic parameters that the program introduces *)
-Definition c12_py_tv_vocab (items : list ritem) : list str := flat_map c12_item_generics items.
+Definition c12_py_tv_vocab (items : list ritem) : list str :=
+  flat_map (fun it => match it with
+                      | ItStruct s => sgenerics s
+                      | ItEnum (EAlgebraic _ _ sh) => egenerics sh
+                      | ItAlias a => agenerics a
+                      | _ => []            (* a unit enum prints no type parameters and declares none *)
+                      end) items.
 (* ... and those for which a TypeVar is declared: structs and algebraic enums *)
 Definition c12_py_tv_declared (items : list ritem) : list str :=
   flat_map (fun it => match it with
